@@ -441,7 +441,12 @@ class Gen:
         if kind == "for":
             return self.for_form(D)
         if kind in ("defn", "setfn"):
-            return self.def_fn(D, kind)
+            node, e = self.def_fn(D, kind)
+            if kind == "defn" and rng.random() < 0.3:
+                # (setv uN (defn f ...)): defn is documented to return None and must still bind f
+                u = f"u{next(self.tmp)}"
+                return {"op": "setv", "ps": [[u, node]]}, eff_join(e, eff(w=[u]))
+            return node, e
         raise AssertionError(kind)
 
     def guarded_jump(self, d, what):
